@@ -2,7 +2,7 @@
    force with the language's matching whenever every pattern of the predicate has an exact shape and no stored string
    contains a separator byte. *)
 From Coq Require Import NArith List Bool Lia.
-From OG Require Import C10.Model C10.Proofs C10.Regex C10.RegexProofs C10.RegexAlt.
+From OG Require Import C10.Model C10.Proofs C10.Regex C10.RegexProofs C10.RegexSem C10.RegexNew C10.RegexAlt.
 Import ListNotations.
 Open Scope N_scope.
 
@@ -59,6 +59,18 @@ Theorem repaired_search_exact pats strs L m e :
   wfL L -> expr_ok e ->
   forall id, In id (search (am_repaired pats strs) (postings L) m e) <-> In id (bruteforce (am_repaired pats strs) L m e).
 Proof. intros. apply search_is_bruteforce; assumption. Qed.
+
+(* today's translation (RegexNew.new_match) as the atom matcher of the index model: exact for every pattern *)
+Definition am_new (pats : list (N * re)) (strs : list (N * list N)) (p v : N) : bool :=
+  new_match (pat_of pats p) (str_of strs v).
+Theorem new_search_exact pats strs L m e :
+  wfL L -> expr_ok e ->
+  forall id, In id (search (am_new pats strs) (postings L) m e) <-> In id (bruteforce (am_repaired pats strs) L m e).
+Proof.
+  intros Hwf Hok id. rewrite (search_am_ext (am_new pats strs) (am_repaired pats strs)).
+  - apply search_is_bruteforce; assumption.
+  - intros p v _. unfold am_new, am_repaired. apply new_match_exact.
+Qed.
 
 (* ------------------------------------------------------------------------------------------------ tag-filter result cache *)
 (* The select path keeps the id set of a tag filter in a cache. A query is answered from the cache when an entry with the
